@@ -57,6 +57,17 @@ NOT_LAYER_SPECS = ["QInitializer", "Clip", "QBidirectional"]
 # QConv2DBatchnorm.call folds and convolves self.kernel directly, the QConv2D mask is stored and
 # serialised but not applied
 FORWARDED_NOT_READ = {("QConv2DBatchnorm", "mask")}
+# constructor arguments of the KERAS base classes that a library class does not name but accepts through
+# **kwargs (see base_kwargs): the ones the inference computation reads (hand-written, like READ_LITS)
+READ_BASE_KWARGS = {"groups", "data_format", "time_major", "keepdims"}
+# arguments of `Layer.__init__` itself / bookkeeping of Keras: runtime flags, not class arguments
+# (dtype other than float32 does not run with the library's float32 quantizers)
+GENERIC_LAYER_KWARGS = {"name", "trainable", "dtype", "dynamic", "activity_regularizer", "conv_op",
+                        "force_generator", "rng_type", "adjustment", "rank", "cell", "pool_function"}
+# a legal non-default value per base-class argument (what the generated layers are built with)
+BASE_KWARG_VALUES = {"groups": 2, "data_format": "channels_first", "time_major": True, "keepdims": True,
+                     "synchronized": True, "seed": 3, "kernel_initializer": "zeros", "kernel_regularizer": "l2",
+                     "kernel_constraint": "non_neg", "renorm_momentum": 0.5, "virtual_batch_size": 2}
 
 
 def pv(v):
@@ -123,6 +134,44 @@ def forwarded_params(c, co, sample):
     except TypeError:
       continue
     out.append((name, req, d))
+  return out
+
+
+def base_kwargs(c, sample):
+  """constructor arguments of the Keras base classes of `c` that `c.__init__` does not name itself and
+  that reach the base class through **kwargs (QGlobalAveragePooling2D: keepdims; QConv1D/2D: groups,
+  data_format; QSimpleRNN/QLSTM/QGRU: time_major; ...): (name, default, emitted, read).  Observed live:
+  the signatures along the MRO, that the constructor accepts a non-default value, and whether
+  `get_config()` of an instance built with that value has the key.  `read` is the hand-written part."""
+  sig = inspect.signature(c.__init__)
+  if not any(p.kind == p.VAR_KEYWORD for p in sig.parameters.values()):
+    return []
+  own = set(sig.parameters) | {p[0] for p in forwarded_params(c, custom_objects(), sample)}
+  out, seen = [], set()
+  for b in c.__mro__[1:]:
+    if not b.__module__.startswith(("tf_keras", "keras")) or b.__name__ in ("Layer", "Module"):
+      continue
+    try:
+      bsig = inspect.signature(b.__init__)
+    except (TypeError, ValueError):
+      continue
+    for p in bsig.parameters.values():
+      if p.name == "self" or p.kind in (p.VAR_KEYWORD, p.VAR_POSITIONAL) or p.default is inspect.Parameter.empty:
+        continue
+      if p.name in own or p.name in seen or p.name in GENERIC_LAYER_KWARGS:
+        continue
+      seen.add(p.name)
+      v = BASE_KWARG_VALUES.get(p.name, p.default)
+      try:
+        inst = c(**dict(sample, **{p.name: v}))
+        cfg = inst.get_config()
+      except Exception:  # pylint: disable=broad-except
+        continue           # the class does not accept it (QBatchNormalization: fused)
+      if hasattr(inst, p.name) and isinstance(getattr(inst, p.name), (bool, int, float, str, type(None))) \
+          and getattr(inst, p.name) != v:
+        continue           # accepted but not handed on (QBatchNormalization: virtual_batch_size stays None)
+      out.append({"name": p.name, "default": pv(p.default if not callable(p.default) else None),
+                  "emitted": p.name in cfg, "read": p.name in READ_BASE_KWARGS})
   return out
 
 
@@ -289,7 +338,8 @@ def layer_table():
     if "activation" in pnames and n not in ("QActivation", "QAdaptiveActivation", "QBatchNormalization"):
       none_lin = cfg.get("activation") == "linear"
     out.append({"name": n, "params": params, "none_is_linear": none_lin, "hook": HOOK.get(n, 0),
-                "reports": reported_slots(c, SAMPLE_ARGS[n], [p["name"] for p in params if p["kind"]["k"] == "quant"])})
+                "reports": reported_slots(c, SAMPLE_ARGS[n], [p["name"] for p in params if p["kind"]["k"] == "quant"]),
+                "base_kwargs": base_kwargs(c, SAMPLE_ARGS[n])})
   del tf
   return out
 
@@ -394,6 +444,14 @@ def emit_lean(t):
            "    [] = the class has no `get_quantizers`), observed live by object identity -/\n"
            "def reportedSlots : List (String × List String) :=\n  [%s]\n"
            % ",\n   ".join("(%s, [%s])" % (lean_str(l["name"]), ", ".join(lean_str(k) for k in l["reports"]))
+                           for l in t["layers"]))
+  o.append("/-- per layer class: the constructor arguments of its KERAS base classes that the class does not name\n"
+           "    and that reach the base class through `**kwargs` (name, default, written by get_config, read at\n"
+           "    inference), observed live along the MRO -/\n"
+           "def baseKwargs : List (String × List BaseKw) :=\n  [%s]\n"
+           % ",\n   ".join("(%s, [%s])" % (lean_str(l["name"]), ", ".join(
+               "⟨%s, %s, %s, %s⟩" % (lean_str(b["name"]), lean_pv(b["default"]), "true" if b["emitted"] else "false",
+                                      "true" if b["read"] else "false") for b in l["base_kwargs"]))
                            for l in t["layers"]))
   o.append("/-- keys of `_add_supported_quantized_objects`, in insertion order -/\n"
            "def customObjects : List String :=\n  [%s]\n" % ", ".join(lean_str(k) for k in t["custom_objects"]))
